@@ -4,6 +4,7 @@ CONSTANTS
   MaxModel = 1
   FileMode = TRUE
   MaxOps = 5
+  Layered = FALSE
   NObj = 2
   Deviations = {"SharedFileDir"}
 INVARIANT TypeOK
